@@ -202,6 +202,9 @@ class Out:
         if CTX.mode == 'sym' and not NATIVE_DEPTH[0]:
             with NoTracing():
                 tags = bytes(buf[mark:])
+                pre = b'PRI * HTTP/2.0\r\n\r\nSM\r\n\r\n'
+                if tags.startswith(pre):
+                    tags = tags[len(pre):]
                 if any(b >= len(CAPTURE) for b in tags):
                     bad = True
                 else:
